@@ -246,7 +246,7 @@ func TestKnown_C09_WCS_REFRACE(t *testing.T) {
 	vals := [][]byte{bytes.Repeat([]byte("a"), 40960), bytes.Repeat([]byte("b"), 40970)}
 	detail := ""
 
-	for iter := 0; iter < ev.Pick(250, 600) && detail == ""; iter++ {
+	for iter := 0; iter < ev.Pick(250, 150) && detail == ""; iter++ {
 		dir, err := os.MkdirTemp("", "c09-wcs-")
 		if err != nil {
 			t.Fatal(err)
